@@ -24,6 +24,11 @@
      MT   one statement `a ? b : c` over 3 lines, a probe on each               3
           (the M* probes have no __LINE__; they are observed through .loc only)
      IM   #include "mac.h" (blank line, #define OUT(t) M(t)); DO = that #define  1
+     G1 G0 GE GX   #if 1 / #if 0 / #else / #endif: conditional groups around the other
+          units (well nested; groups still open at the end of the body are closed
+          before the epilogue).  Units in a skipped group keep their physical lines and
+          have no other effect: their probes are not seen, their #line and #include
+          directives are not executed.  A #line in a processed group works as anywhere.  1
    x line ending LF / CRLF / CR, with or without a terminator on the last line.
 
    Level A (C11 5.1.1.2, 6.10.4, 6.10.8.1): the position of a token is the
@@ -54,7 +59,11 @@
    Controls that TLC must reject: LineOff = 2 (any other delta error), the
    strict invariant (RecordedLineDev = 0) with LineOff = 1, and SameAll
    (continuation-line probes included).  LineOff = 0 with RecordedLineDev = 0
-   is the repaired design (Lines_repaired.cfg).                              *)
+   is the repaired design (Lines_repaired.cfg).
+   LineInGroupFix = FALSE transcribes read_line_marker before its repair: the
+   operands of #line were macro-replaced by preprocess(), which ends with the
+   "unterminated conditional directive" test and so rejects a #line written
+   inside an open conditional; TLC must reject it too (control).              *)
 EXTENDS Integers, Sequences, SequencesExt, FiniteSets, TLC, Json, CSV, IOUtils
 
 CONSTANTS MaxLen,        \* units per main file (between the fixed prologue and epilogue)
@@ -65,6 +74,7 @@ CONSTANTS MaxLen,        \* units per main file (between the fixed prologue and 
           Seed, Stride,
           LineOff,       \* what read_line_marker does: the line after `#line n` is presumed to be n + LineOff
                          \* (1 = the tree as it is: delta = n - line of the directive; 0 = repaired; 2 = control)
+          LineInGroupFix,  \* TRUE: #line inside an open conditional is executed; FALSE: the file is rejected (control)
           RecordedLineDev, \* the deviation recorded as finding D16-line and tolerated by SameButRecorded (1; 0 once repaired)
           Emit
 
@@ -88,21 +98,33 @@ Id(tag, k, u) == tag \o k \o ToString(u)      \* probe identity: file tag, unit 
 (* ---- Level A ------------------------------------------------------------- *)
 (* state while walking a file: phys = physical line of the next unit; base = <<n, d>> after #line n on line d *)
 Presumed(base, l) == IF base = <<>> THEN l ELSE base[1] + (l - base[2] - 1)
-RECURSIVE WalkA(_, _, _, _, _, _, _)
-WalkA(units, i, phys, base, name, tag, acc) ==
+(* 6.10.1: grp = stack of [act, taken] of the open conditionals; a unit is processed iff every group is active *)
+GrpKinds == {"G1", "G0", "GE", "GX"}
+Active(grp) == \A j \in DOMAIN grp : grp[j].act
+GrpNext(grp, k) ==
+  CASE k = "G1" -> Append(grp, [act |-> TRUE, taken |-> TRUE])
+    [] k = "G0" -> Append(grp, [act |-> FALSE, taken |-> FALSE])
+    [] k = "GE" -> [grp EXCEPT ![Len(grp)] = [act |-> ~@.taken, taken |-> TRUE]]
+    [] k = "GX" -> SubSeq(grp, 1, Len(grp) - 1)
+RECURSIVE WalkA(_, _, _, _, _, _, _, _)
+WalkA(units, i, phys, base, name, tag, grp, acc) ==
   IF i > Len(units) THEN acc
   ELSE LET k == units[i] IN
-       IF ProbeOffs(k) # <<>>
-       THEN WalkA(units, i + 1, phys + NPhys(k), base, name, tag,
+       IF k \in GrpKinds
+       THEN WalkA(units, i + 1, phys + 1, base, name, tag, GrpNext(grp, k), acc)
+       ELSE IF ~Active(grp)
+       THEN WalkA(units, i + 1, phys + NPhys(k), base, name, tag, grp, acc)
+       ELSE IF ProbeOffs(k) # <<>>
+       THEN WalkA(units, i + 1, phys + NPhys(k), base, name, tag, grp,
                   acc \o [j \in DOMAIN ProbeOffs(k) |->
                             [id |-> Id(tag, k, i) \o Sfx(k, j), line |-> Presumed(base, phys + ProbeOffs(k)[j]), file |-> name, k |-> k, g |-> base # <<>>]])
        ELSE IF LineArg(k) > 0
-       THEN WalkA(units, i + 1, phys + 1, <<LineArg(k), phys>>, IF k = "F" THEN "foo.c" ELSE name, tag, acc)
+       THEN WalkA(units, i + 1, phys + 1, <<LineArg(k), phys>>, IF k = "F" THEN "foo.c" ELSE name, tag, grp, acc)
        ELSE IF IsInc(k)
-       THEN WalkA(units, i + 1, phys + 1, base, name, tag,
-                  WalkA(HdrUnits(Hdr[k]), 1, 1, <<>>, Hdr[k], Hdr[k], acc))
-       ELSE WalkA(units, i + 1, phys + NPhys(k), base, name, tag, acc)
-RunA(units) == WalkA(units, 1, 1, <<>>, "main.c", "m", <<>>)
+       THEN WalkA(units, i + 1, phys + 1, base, name, tag, grp,
+                  WalkA(HdrUnits(Hdr[k]), 1, 1, <<>>, Hdr[k], Hdr[k], <<>>, acc))
+       ELSE WalkA(units, i + 1, phys + NPhys(k), base, name, tag, grp, acc)
+RunA(units) == WalkA(units, 1, 1, <<>>, "main.c", "m", <<>>, <<>>)
 
 (* ---- file contents as abstract characters -------------------------------- *)
 UnitLines(k, tag, u) ==       \* physical lines, without terminators
@@ -125,6 +147,7 @@ UnitLines(k, tag, u) ==       \* physical lines, without terminators
     [] k = "V"  -> << <<Id(tag, k, u)>>, <<"x">>, <<"x">> >>
     [] IsInc(k) -> << <<"#I" \o k>> >>
     [] k \in {"L", "F", "L50"} -> << <<"#" \o k>> >>
+    [] k \in GrpKinds -> << <<"#" \o k>> >>
 EolChars(e) == CASE e = "LF" -> <<"\n">> [] e = "CRLF" -> <<"\r", "\n">> [] e = "CR" -> <<"\r">>
 Flatten(ss) == FoldLeft(LAMBDA acc, s : acc \o s, <<>>, ss)
 PhysLines(units, tag) == Flatten([u \in DOMAIN units |-> UnitLines(units[u], tag, u)])
@@ -169,37 +192,65 @@ TokenizeFile(units, tag, eol, final) == Tokens(Unsplice(Canon(ReadFile(Chars(uni
 (* probe id -> unit kind (ghost, only to tag the emitted records) *)
 KindIn(all, x) == IF \E i \in DOMAIN all : all[i].id = x THEN all[CHOOSE i \in DOMAIN all : all[i].id = x].k ELSE "?"
 
-(* preprocess2 over the tokens of one file: st = [delta, dname, out] *)
+(* preprocess2 over the tokens of one file: st = [delta, dname, out, ci, skip, rej]
+   ci = the cond_incl entries (`included` flags) opened in this file; skip = 0, or 1 + the number of conditionals
+   opened inside the group being skipped (skip_cond_incl / skip_cond_incl2); rej = the file was rejected *)
 IsDir(t) == SubSeq(t, 1, 1) = "#"
+Rejected == <<[id |-> "REJECTED", line |-> 0, file |-> "", k |-> "?"]>>
 RECURSIVE PP(_, _, _, _, _, _)
 PP(toks, i, st, eol, final, kindOf) ==
-  IF i > Len(toks) THEN st.out
+  IF st.rej THEN Rejected
+  ELSE IF i > Len(toks) THEN st.out
   ELSE LET t == toks[i].t
            ln == toks[i].line IN
-       IF ~IsDir(t)          \* a probe, directly or through M: line_macro/file_macro via origin
+       IF st.skip > 0          \* skip_cond_incl: only the nesting is tracked
+       THEN PP(toks, i + 1,
+               IF t \in {"#G1", "#G0"} THEN [st EXCEPT !.skip = @ + 1]
+               ELSE IF t = "#GX" THEN (IF st.skip = 1 THEN [st EXCEPT !.skip = 0, !.ci = SubSeq(@, 1, Len(@) - 1)] ELSE [st EXCEPT !.skip = @ - 1])
+               ELSE IF t = "#GE" /\ st.skip = 1 THEN [st EXCEPT !.skip = IF st.ci[Len(st.ci)] THEN 1 ELSE 0]
+               ELSE st, eol, final, kindOf)
+       ELSE IF t \in {"#G1", "#G0"}      \* push_cond_incl; if (!val) skip_cond_incl
+       THEN PP(toks, i + 1, [st EXCEPT !.ci = Append(@, t = "#G1"), !.skip = IF t = "#G1" THEN 0 ELSE 1], eol, final, kindOf)
+       ELSE IF t = "#GE"                  \* if (cond_incl->included) skip_cond_incl
+       THEN PP(toks, i + 1, [st EXCEPT !.skip = IF st.ci[Len(st.ci)] THEN 1 ELSE 0], eol, final, kindOf)
+       ELSE IF t = "#GX"
+       THEN PP(toks, i + 1, [st EXCEPT !.ci = SubSeq(@, 1, Len(@) - 1)], eol, final, kindOf)
+       ELSE IF ~IsDir(t)          \* a probe, directly or through M: line_macro/file_macro via origin
        THEN PP(toks, i + 1, [st EXCEPT !.out = Append(@, [id |-> t, line |-> ln + st.delta, file |-> st.dname, k |-> KindIn(kindOf, t)])], eol, final, kindOf)
        ELSE IF t = "#D" THEN PP(toks, i + 1, st, eol, final, kindOf)
        ELSE IF SubSeq(t, 1, 2) = "#I"
        THEN LET k == SubSeq(t, 3, Len(t))
                 h == Hdr[k]
-                sub == PP(TokenizeFile(HdrUnits(h), h, eol, final), 1, [delta |-> 0, dname |-> h, out |-> st.out], eol, final, kindOf)
-            IN PP(toks, i + 1, [st EXCEPT !.out = sub], eol, final, kindOf)
-       ELSE \* read_line_marker: start->file->line_delta = tok->val - start->line_no
+                sub == PP(TokenizeFile(HdrUnits(h), h, eol, final), 1, [delta |-> 0, dname |-> h, out |-> st.out, ci |-> <<>>, skip |-> 0, rej |-> FALSE,
+                                                                            open |-> st.open \/ st.ci # <<>>], eol, final, kindOf)      \* cond_incl is one list for all files
+            IN PP(toks, i + 1, [st EXCEPT !.out = sub, !.rej = (sub = Rejected)], eol, final, kindOf)
+       ELSE \* read_line_marker: start->file->line_delta = tok->val - start->line_no; before the repair it ran
+            \* preprocess() on its operands, whose last act is `if (cond_incl) error_tok(...)`
             LET k == SubSeq(t, 2, Len(t))
                 d == LineArg(k) - ln - 1 + LineOff
-            IN PP(toks, i + 1, [st EXCEPT !.delta = d, !.dname = IF k = "F" THEN "foo.c" ELSE @], eol, final, kindOf)
+            IN PP(toks, i + 1, [st EXCEPT !.delta = d, !.dname = IF k = "F" THEN "foo.c" ELSE @,
+                                          !.rej = ~LineInGroupFix /\ (st.ci # <<>> \/ st.open)], eol, final, kindOf)
 
 RunI(units, eol, final) ==
-  PP(TokenizeFile(units, "m", eol, final), 1, [delta |-> 0, dname |-> "main.c", out |-> <<>>], eol, final, RunA(units))
+  PP(TokenizeFile(units, "m", eol, final), 1, [delta |-> 0, dname |-> "main.c", out |-> <<>>, ci |-> <<>>, skip |-> 0, rej |-> FALSE, open |-> FALSE], eol, final, RunA(units))
 
 (* ---- scenarios ------------------------------------------------------------ *)
 Prologue == <<"X", "D", "IM", "X">> \o [j \in 1..Pad |-> "C"]   \* prototypes; #define M; #include "mac.h"; int main(void) {; padding
 Epilogue == <<"X">>                  \* return 0; }
-Bodies == UNION {[1..n -> Kinds] : n \in 1..MaxLen}
+(* conditional groups are well nested: s = [#else seen] per open group; bad once a #else / #endif has no group to belong to *)
+Nest(b) == FoldLeft(LAMBDA st, k :
+                      IF st.bad THEN st
+                      ELSE IF k \in {"G1", "G0"} THEN [st EXCEPT !.s = Append(@, FALSE)]
+                      ELSE IF k = "GE" THEN (IF st.s = <<>> \/ st.s[Len(st.s)] THEN [st EXCEPT !.bad = TRUE] ELSE [st EXCEPT !.s[Len(st.s)] = TRUE])
+                      ELSE IF k = "GX" THEN (IF st.s = <<>> THEN [st EXCEPT !.bad = TRUE] ELSE [st EXCEPT !.s = SubSeq(@, 1, Len(@) - 1)])
+                      ELSE st,
+                    [bad |-> FALSE, s |-> <<>>], b)
+Bodies == {b \in UNION {[1..n -> Kinds] : n \in 1..MaxLen} : ~Nest(b).bad}
 ScSet == {[body |-> b, eol |-> e, final |-> f] : b \in Bodies, e \in Eols, f \in BOOLEAN}
 ScSeq == SetToSeq(ScSet)
 Chosen == {i \in DOMAIN ScSeq : ((i % Stride) * (7919 % Stride) + Seed) % Stride = 0}   \* = (i*7919 + Seed) % Stride, without 32-bit overflow
-UnitsOf(s) == Prologue \o s.body \o Epilogue
+Closers(b) == [j \in 1..Len(Nest(b).s) |-> "GX"]              \* the groups still open are closed before the epilogue
+UnitsOf(s) == Prologue \o s.body \o Closers(s.body) \o Epilogue
 
 VARIABLES sc, resA, resI, done
 vars == <<sc, resA, resI, done>>
